@@ -256,17 +256,6 @@ Section WithMv.
 
   (* ---------- the footprint condition between two threads ---------- *)
 
-  Definition thread_wf (t : thread) : bool :=
-    match t with TCall k => call_wf k | TSetOpt _ _ => true end.
-
-  (* reader ti, writer tj *)
-  Definition pair_ok (ti tj : thread) : Prop :=
-    match ti, tj with
-    | TCall ki, TCall kj => c_mr ki <> c_mr kj
-    | TCall ki, TSetOpt c _ => c_client ki <> c
-    | TSetOpt _ _, _ => True
-    end.
-
   Lemma pair_compatible ti tj :
     thread_wf ti = true -> thread_wf tj = true -> pair_ok ti tj ->
     compatible cloc cval memo (fp_of_code (thread_code ti)) (fp_of_code (thread_code tj)).
